@@ -503,3 +503,91 @@ func TestC15Statements(t *testing.T) {
 		}
 	})
 }
+
+// ---- names that only back quotes can spell ---------------------------------------
+
+type c15NameCase struct {
+	Query string     `json:"query"`
+	Pairs []lib.Pair `json:"pairs"`
+}
+
+func init() {
+	registerReplay("c15name", func(c *c15NameCase) string { m, _ := checkC15Name(c); return m })
+}
+
+// checkC15Name: the WHERE of an accepted statement, printed canonically and
+// put back behind the same select list, must parse to the same tree, print
+// the same text and select the same rows. The statements use names that are
+// not select fields (they evaluate to their own text) written in back quotes.
+func checkC15Name(c *c15NameCase) (msg string, nontrivial bool) {
+	lib.SetGlobals(lib.Cfg{Mode: "row", Batch: 32, Cache: true})
+	sel, err := parseSelect(c.Query)
+	if err != nil {
+		return "", false
+	}
+	i := strings.Index(c.Query, " where ")
+	if i < 0 {
+		return "", false
+	}
+	head := c.Query[:i]
+	w1 := sel.Where.Expr.String()
+	q2 := head + " where " + w1
+	sel2, err := parseSelect(q2)
+	if err != nil {
+		return fmt.Sprintf("the filter of %q prints as %q, which does not parse behind the same select list: %v", c.Query, w1, err), true
+	}
+	if w2 := sel2.Where.Expr.String(); w2 != w1 {
+		return fmt.Sprintf("the filter of %q prints as %q; parsing that prints %q", c.Query, w1, w2), true
+	}
+	if a, b := engSExpr(sel.Where.Expr), engSExpr(sel2.Where.Expr); a != b {
+		return fmt.Sprintf("the filter of %q prints as %q, which parses to %s instead of %s", c.Query, w1, b, a), true
+	}
+	for _, mode := range []string{"row", "batch"} {
+		cfg := lib.Cfg{Mode: mode, Batch: 2, Cache: true}
+		r1 := lib.Run(c.Query, lib.NewStore(c.Pairs), len(c.Pairs), cfg)
+		r2 := lib.Run(q2, lib.NewStore(c.Pairs), len(c.Pairs), cfg)
+		if r1.BuildErr != nil || r1.Failed() {
+			return "", false
+		}
+		if r2.BuildErr != nil || r2.Failed() || !lib.EqualRows(r1.Rows, r2.Rows) {
+			return fmt.Sprintf("statement %q [%s] returns %s; with its filter as printed, %q: %s", c.Query, cfg, lib.ShowRows(r1.Rows), q2, r2.Describe()), true
+		}
+	}
+	return "", true
+}
+
+// TestC15Names: names in back quotes (capitals, blanks, operator characters,
+// keywords, numbers) as function arguments, list items and operands.
+func TestC15Names(t *testing.T) {
+	lib.Stats.Exhaustive = true
+	pairs := []lib.Pair{{K: "a", V: "1"}, {K: "k3", V: "x y"}, {K: "key", V: "2"}, {K: "Foo", V: "foo"}}
+	names := []string{"key", "value", "Foo", "a b", "1+1", "select", "and", "V", "x", "12", "a-b", "true", "Key"}
+	heads := []string{"select *", "select key, value as v", "select key as k, upper(value) as `V`"}
+	shapes := []string{
+		"str(`%s`) = '%s'",
+		"upper(`%s`) != 'ZZ'",
+		"key in list(`%s`, 'a')",
+		"`%s` + 'x' = value",
+		"!(strlen(`%s`) > 2)",
+		"join('-', `%s`, key) ^= 'k'",
+	}
+	idx := 0
+	for _, h := range heads {
+		for _, nm := range names {
+			for _, sh := range shapes {
+				idx++
+				if !lib.Mine(idx) {
+					continue
+				}
+				q := h + " where " + strings.ReplaceAll(sh, "%s", nm)
+				c := &c15NameCase{Query: q, Pairs: pairs}
+				lib.Journal("C15", "c15name", c)
+				msg, nt := checkC15Name(c)
+				lib.Stats.EnumCase(nt, []string{"backquoted-name"}, func() any { return map[string]any{"query": q} })
+				if msg != "" {
+					fail(t, "C15", "c15name", msg, c)
+				}
+			}
+		}
+	}
+}
